@@ -1,3 +1,5 @@
+-- TIE-PROPS: C16
+-- TIE-SECTION: extract_exprgen
 import PytaskProofs.Lemmas.ExprGenRefines
 /-!
 # ExprTie — the hand-written expression model M3 equals the one computed from the source
@@ -15,8 +17,8 @@ selection that no longer returns `None` without expression — makes this module
 no longer speak about the code and the check reports PROOF-BROKEN. Shapes the translator does not know are rejected by
 the translator itself (fail-closed), with the same consequence.
 -/
-namespace Pytask.SelExpr
-open Gen Pytask.Generated
+namespace Pytask
+open SelExpr SelExpr.Gen Generated
 
 deriving instance DecidableEq for Except
 
@@ -85,4 +87,4 @@ example :
 example : mkBin "flatAnyBoolOp" "And" (.or (.ident ['a']) (.ident ['b'])) (.ident ['c'])
     = some (.or (.or (.ident ['a']) (.ident ['b'])) (.ident ['c'])) := by decide +kernel
 
-end Pytask.SelExpr
+end Pytask
